@@ -9,6 +9,8 @@ mod bytesapi;
 mod oneshotip;
 #[cfg(not(feature = "force-inprocess"))]
 mod eofrace;
+#[cfg(not(feature = "force-inprocess"))]
+mod stress;
 mod timed;
 mod chain;
 #[cfg(feature = "async")]
@@ -46,6 +48,8 @@ fn main() {
         "oneshotip" => oneshotip::run(&args[2..]),
         #[cfg(not(feature = "force-inprocess"))]
         "eofrace" => eofrace::run(&args[2..]),
+        #[cfg(not(feature = "force-inprocess"))]
+        "stress" => stress::run(&args[2..]),
         "timed" => timed::run(&args[2..]),
         "chain" => chain::run(&args[2..]),
         #[cfg(not(feature = "force-inprocess"))]
